@@ -116,14 +116,14 @@ Print Assumptions C12_mul_type_fits.
    are exact in every style and mode whenever the precision was not clamped *)
 Theorem C12_src_max_precision_fits_primitive : exists k64 k128,
   d64_max_precision = Some k64 /\ d128_max_precision = Some k128 /\
-  forall pw, params_ok {| max64 := k64; max128 := k128; pow_i32 := pw |}.
+  forall pw dv, params_ok {| max64 := k64; max128 := k128; pow_i32 := pw; d2d_validates := dv |}.
 Proof. exact src_params_ok. Qed.
 Print Assumptions C12_src_max_precision_fits_primitive.
 
 Theorem C12_dec_addsub_exact_when_not_clamped : exists k64 k128,
   d64_max_precision = Some k64 /\ d128_max_precision = Some k128 /\
-  forall pw st m k sub p1 s1 a p2 s2 b p' s',
-  let P := {| max64 := k64; max128 := k128; pow_i32 := pw |} in
+  forall pw dv st m k sub p1 s1 a p2 s2 b p' s',
+  let P := {| max64 := k64; max128 := k128; pow_i32 := pw; d2d_validates := dv |} in
   0 <= s1 <= p1 -> 0 <= s2 <= p2 -> Z.abs a < 10 ^ p1 -> Z.abs b < 10 ^ p2 ->
   add_sub_type P k p1 s1 p2 s2 = (p', s', false) ->
   dec_addsub P st m k sub (ODec p1 s1 a) (ODec p2 s2 b)
@@ -134,8 +134,8 @@ Print Assumptions C12_dec_addsub_exact_when_not_clamped.
 
 Theorem C12_dec_mul_exact_when_not_clamped : exists k64 k128,
   d64_max_precision = Some k64 /\ d128_max_precision = Some k128 /\
-  forall pw st m k p1 s1 a p2 s2 b p' s',
-  let P := {| max64 := k64; max128 := k128; pow_i32 := pw |} in
+  forall pw dv st m k p1 s1 a p2 s2 b p' s',
+  let P := {| max64 := k64; max128 := k128; pow_i32 := pw; d2d_validates := dv |} in
   0 <= p1 -> 0 <= p2 -> Z.abs a < 10 ^ p1 -> Z.abs b < 10 ^ p2 ->
   mul_type P k p1 s1 p2 s2 = Some (p', s', false) ->
   dec_mul P st m k (ODec p1 s1 a) (ODec p2 s2 b) = Some ((p', s', false), Ok (a * b))
@@ -162,13 +162,39 @@ Theorem C12_dec_add_clamped_refuted : forall m,
 Proof. exact dec_add_clamped_refuted. Qed.
 Print Assumptions C12_dec_add_clamped_refuted.
 
-(* an integer operand of decimal + / - is scaled by a factor computed in i32: wrong for scale >= 10 *)
-Theorem C12_int_to_decimal_scale_refuted :
-  dec_addsub P0 Native Release D64 false (ODec 12 10 15000000000) (OInt 8 1) = ((14, 10, false), Ok 16410065408)
-  /\ dec_addsub P0 Native Debug D64 false (ODec 12 10 15000000000) (OInt 8 1) = ((14, 10, false), Panic)
+(* for EVERY pair of precisions (clamped or not), with the casts validating as the current source does:
+   an error, or the exact value with at most one digit too many (the add itself is unchecked and
+   unvalidated), or -- Decimal128 with the native operator only -- an i128 overflow of the add.
+   No over-precision operand is ever used; Decimal64 never panics or wraps. *)
+Theorem C12_dec_addsub_exact_or_error_any_precision : exists k64 k128,
+  d64_max_precision = Some k64 /\ d128_max_precision = Some k128 /\ decimal_to_decimal_validates = Some 1 /\
+  forall pw st m k sub p1 s1 a p2 s2 b ty r,
+  let P := {| max64 := k64; max128 := k128; pow_i32 := pw; d2d_validates := true |} in
+  0 <= s1 <= p1 -> 0 <= s2 <= p2 -> Z.abs a < 10 ^ p1 -> Z.abs b < 10 ^ p2 ->
+  dec_addsub P st m k sub (ODec p1 s1 a) (ODec p2 s2 b) = (ty, r) ->
+  let p' := fst (fst ty) in let s' := snd (fst ty) in
+  let v := exact_addsub s' sub (ODec p1 s1 a) (ODec p2 s2 b) in
+  r = Err \/ (r = Ok v /\ Z.abs v < 2 * 10 ^ p') \/
+  (k = D128 /\ st = Native /\ in_range Signed 128 v = false).
+Proof. exact src_dec_addsub_exact_or_error_any_precision. Qed.
+Print Assumptions C12_dec_addsub_exact_or_error_any_precision.
+
+(* the strict statement (error ONLY when the exact result does not fit) is refuted for clamped
+   precisions also on the error side: an operand that does not fit the common type fails the cast *)
+Theorem C12_dec_add_clamped_cast_error_though_representable : forall m,
+  dec_addsub P0 Native m D64 false (ODec 18 0 10) (ODec 18 18 (-9500000000000000000))
+    = ((18, 18, true), Err)
+  /\ dec_addsub P0 Native m D64 false (ODec 18 0 1) (ODec 18 18 (-500000000000000000)) = ((18, 18, true), Err)
+  /\ spec_addsub P0 D64 false (ODec 18 0 1) (ODec 18 18 (-500000000000000000)) = Ok 500000000000000000.
+Proof. exact dec_add_clamped_cast_error_though_representable. Qed.
+Print Assumptions C12_dec_add_clamped_cast_error_though_representable.
+
+(* an integer operand of decimal + / -: exact scale factor now (was computed in i32) *)
+Theorem C12_int_to_decimal_scale_exact_now : forall m,
+  dec_addsub P0 Native m D64 false (ODec 12 10 15000000000) (OInt 8 1) = ((14, 10, false), Ok 25000000000)
   /\ spec_addsub P0 D64 false (ODec 12 10 15000000000) (OInt 8 1) = Ok 25000000000.
-Proof. exact int_to_decimal_scale_refuted. Qed.
-Print Assumptions C12_int_to_decimal_scale_refuted.
+Proof. exact int_to_decimal_scale_exact_now. Qed.
+Print Assumptions C12_int_to_decimal_scale_exact_now.
 
 Theorem C12_dec_mul_clamped_refuted_digits : forall m,
   dec_mul P0 Native m D64 (ODec 9 0 500000000) (ODec 10 0 9999999999)
@@ -185,7 +211,9 @@ Theorem C12_dec_mul_clamped_refuted_overflow :
 Proof. exact dec_mul_clamped_refuted_overflow. Qed.
 Print Assumptions C12_dec_mul_clamped_refuted_overflow.
 
-Theorem C12_refutation_params_are_source : d64_max_precision = Some (max64 P0) /\ d128_max_precision = Some (max128 P0).
+Theorem C12_refutation_params_are_source : d64_max_precision = Some (max64 P0) /\ d128_max_precision = Some (max128 P0) /\
+  int_to_decimal_pow_i32 = Some (if pow_i32 P0 then 1 else 0) /\
+  decimal_to_decimal_validates = Some (if d2d_validates P0 then 1 else 0).
 Proof. exact src_P0. Qed.
 Print Assumptions C12_refutation_params_are_source.
 
